@@ -1,7 +1,7 @@
 (* C05 — deciding obligations. Statements only, closed by the lemmas proved in Circ/*Proofs.v. *)
 From Coq Require Import ZArith List Bool Permutation.
 From VF Require Import Circ.Moments Circ.Placement Circ.Insert Circ.BatchEdit Circ.History
-  Circ.MomentsProofs Circ.InsertProofs Circ.PlacementProofs Circ.CacheProofs Circ.BatchProofs Circ.OrderProofs Circ.TotalProofs Circ.HistoryProofs.
+  Circ.MomentsProofs Circ.InsertProofs Circ.PlacementProofs Circ.CacheProofs Circ.BatchProofs Circ.OrderProofs Circ.TotalProofs Circ.EquivProofs Circ.HistoryProofs.
 Import ListNotations.
 Open Scope Z_scope.
 
@@ -94,6 +94,19 @@ Theorem C05_cached_append_succeeds : forall c its pc,
   cache c = Some pc -> cache_matches pc (moms c) -> exists c' z, append c its EARLIEST = (c', inl z).
 Proof. exact cached_append_succeeds. Qed.
 Print Assumptions C05_cached_append_succeeds.
+
+(* ... hence the cached append builds exactly the moments of the uncached insert(len, EARLIEST), for any
+   operation tree; the index read from the cache is the result of the backward scan *)
+Theorem C05_cached_append_eq_uncached : forall c its pc,
+  cache c = Some pc -> cache_matches pc (moms c) ->
+  moms (fst (append c its EARLIEST)) = moms (fst (append (mkc (moms c) None (sm c)) its EARLIEST)).
+Proof. exact cached_append_eq_uncached. Qed.
+Print Assumptions C05_cached_append_eq_uncached.
+
+Theorem C05_cache_index_is_scan : forall pc ms o, cache_matches pc ms ->
+  gea_index pc (IOp o) = earliest_available_moment ms o (length ms).
+Proof. exact gea_eq_eam. Qed.
+Print Assumptions C05_cache_index_is_scan.
 
 (* with_tags breaks it (genuine defect of /repo, known finding order:with_tags): statements kept refuted *)
 Theorem C05_cache_refines_with_tags_refuted : exists h, Forall call_wf h /\ ~ cache_ok (run empty_circuit h).
